@@ -12,7 +12,7 @@
 //!   batch n= seed= conc= panic=<pct> drop=<pct> types=<bitmask>
 //!   one ty=<name> fin=ret|panic op=join|drop|keep pre=<us> hdelay=<us> gate=0|1 wake=0|1
 //!   sched ops=<op;op..> steps=<tok,tok..>     op: s<p>:<ty>:<r|p>  j<p>  d<p>
-//!                                             tok: h<id>  t<p>.<id>  w
+//!                                             tok: h<id>  t<p>.<id>  w  h><id|p>  t<p>><id>
 //!   mark <text>
 #![no_std]
 #![no_main]
@@ -691,6 +691,7 @@ fn cmd_sched(line: &str) {
     expected[0] = true;
     let mut cur_op: isize = -1;
     let mut diverged = false;
+    let mut lenient = false;
     let tmo = 5_000_000u64;
     for (i, tok) in arg(line, "steps").unwrap_or("").split(',').enumerate() {
         if tok.is_empty() {
@@ -699,7 +700,29 @@ fn cmd_sched(line: &str) {
         let b = tok.as_bytes();
         let mut why = "";
         let mut granted = usize::MAX;
+        // bookkeeping shared by all ways of granting a turn: which operation the owner is in, and
+        // which threads exist (so that the settle loop waits for them)
+        let mut do_grant = |party: usize, at: u32, expected: &mut [bool; sched::NPARTY], cur_op: &mut isize| {
+            if party == 0 && at == sched::H_OP {
+                *cur_op += 1;
+            }
+            if party == 0 && at == tiny_std::verif_thread::SPAWN_TLS {
+                if let Some(HOp::Spawn { party: p, .. }) = ops.get((*cur_op).max(0) as usize) {
+                    expected[*p as usize] = true;
+                }
+            }
+            sched::grant(party);
+        };
         if b[0] == b'w' {
+            if lenient {
+                // the run has left the model's path: still get the owner parked if it is on its way
+                for _ in 0..16 {
+                    match sched::wait_quiescent(0, tmo) {
+                        sched::Q::At(at) => do_grant(0, at, &mut expected, &mut cur_op),
+                        _ => break,
+                    }
+                }
+            }
             if sched::wait_quiescent(0, tmo) != sched::Q::Parked {
                 why = "handle owner not parked for the stray wake";
             } else if sched::stray_wake(tmo) < 1 {
@@ -711,6 +734,42 @@ fn cmd_sched(line: &str) {
                     sys::sched_yield();
                 }
             }
+        } else if let Some(pos) = tok.find('>') {
+            // directed step `h>X` / `t<p>>X`: grant the party turn after turn until it stands at
+            // point X (X = p: until the owner is parked in the kernel), is idle or gone
+            let party = if b[0] == b'h' { 0 } else { tok[1..pos].parse::<usize>().unwrap_or(1) };
+            let target = &tok[pos + 1..];
+            let want_parked = target == "p";
+            let want_id = target.parse::<u32>().unwrap_or(0);
+            let mut turns = 0;
+            loop {
+                let q = sched::wait_quiescent(party, tmo);
+                match q {
+                    sched::Q::At(at) => {
+                        if turns > 0 && !want_parked && at == want_id {
+                            break;
+                        }
+                        if turns >= 40 {
+                            why = "directed step: target not reached in 40 turns";
+                            break;
+                        }
+                        do_grant(party, at, &mut expected, &mut cur_op);
+                        granted = party;
+                        turns += 1;
+                        // the turn may create or wake other parties: let them settle first
+                        for (j, exp) in expected.iter().enumerate() {
+                            if *exp && j != party {
+                                let _ = sched::wait_quiescent(j, tmo);
+                            }
+                        }
+                    }
+                    sched::Q::Running => {
+                        why = "directed step: party did not reach a point in time";
+                        break;
+                    }
+                    _ => break, // parked, idle or gone
+                }
+            }
         } else {
             let (party, id) = if b[0] == b'h' {
                 (0usize, tok[1..].parse::<u32>().unwrap_or(0))
@@ -720,24 +779,26 @@ fn cmd_sched(line: &str) {
                 (p, it.next().and_then(|v| v.parse::<u32>().ok()).unwrap_or(0))
             };
             let q = sched::wait_quiescent(party, tmo);
-            if q != sched::Q::At(id) {
-                why = "party is not at the expected point";
-            } else {
-                if party == 0 && id == sched::H_OP {
-                    cur_op += 1;
+            match q {
+                sched::Q::At(at) if at == id || lenient => {
+                    do_grant(party, at, &mut expected, &mut cur_op);
+                    granted = party;
                 }
-                if party == 0 && id == tiny_std::verif_thread::SPAWN_TLS {
-                    if let Some(HOp::Spawn { party: p, .. }) = ops.get(cur_op.max(0) as usize) {
-                        expected[*p as usize] = true;
-                    }
+                sched::Q::At(at) => {
+                    // first departure from the model's path: report it, then go on leniently (the
+                    // remaining turns and stray wakes are still delivered, to whoever is there)
+                    why = "party is not at the expected point";
+                    do_grant(party, at, &mut expected, &mut cur_op);
+                    granted = party;
                 }
-                sched::grant(party);
-                granted = party;
+                _ if lenient => {}
+                _ => why = "party is not at the expected point",
             }
         }
         // let everything settle: exactly one party ran, wait until all are quiescent again
         let mut st = [0u64; sched::NPARTY];
-        if why.is_empty() {
+        let mut stuck = false;
+        {
             // the party that was granted the turn first (its step may wake or create others)
             if granted < sched::NPARTY && expected[granted] {
                 let _ = sched::wait_quiescent(granted, tmo);
@@ -748,6 +809,7 @@ fn cmd_sched(line: &str) {
                     st[j] = q_code(q);
                     if q == sched::Q::Running {
                         why = "a party did not reach a point, park, or exit in time";
+                        stuck = true;
                     }
                 }
             }
@@ -758,9 +820,14 @@ fn cmd_sched(line: &str) {
             for (j, h) in have.iter_mut().enumerate() {
                 *h = q_code(sched::state_of(j));
             }
-            Ev::new("diverge").u("i", i as u64).s("tok", tok).s("why", why).list("have", &have).emit();
+            if !diverged {
+                Ev::new("diverge").u("i", i as u64).s("tok", tok).s("why", why).list("have", &have).emit();
+            }
             diverged = true;
-            break;
+            lenient = true;
+            if stuck {
+                break;
+            }
         }
     }
     sched::release_all();
